@@ -58,6 +58,44 @@ def _upgrade_shape(ctx, rep, cls, meth):
     return n
 
 
+def _abs_gt_domain(ctx, rep):
+    """Float._abs_gt decides by the first differing byte, most significant first: the loop must visit
+    *every* byte of the buffer (a byte left out makes two different numbers compare as equal-but-not-eq)."""
+    fn = ctx.fn(N + ':Float._abs_gt')
+    loops = [n for n in own_nodes(fn) if isinstance(n, ast.For)]
+    if len(loops) != 1:
+        rep.error('Float._abs_gt: expected one comparison loop, found %d' % len(loops))
+        return
+    it = loops[0].iter
+    t = norm(it)
+    verdict = None
+    if isinstance(it, ast.Call) and norm(it.func) == 'reversed':
+        # reversed(list(zip(<whole buffers>)))  -- any subscript/slice inside restricts the domain
+        sub = [x for x in ast.walk(it) if isinstance(x, ast.Subscript)]
+        zips = [x for x in ast.walk(it) if isinstance(x, ast.Call) and norm(x.func) == 'zip']
+        if len(zips) == 1 and len(zips[0].args) == 2:
+            verdict = (not sub, 'the zipped buffers are sliced: %s' % t)
+    elif isinstance(it, ast.Call) and norm(it.func) == 'range' and len(it.args) == 3:
+        start, stop, step = [norm(a) for a in it.args]
+        if step in ('-1', '- 1') and start in ('self.size - 1', 'len(self._buffer) - 1', 'self.size-1'):
+            verdict = (stop in ('-1', '- 1'), 'descending range stops at %s: byte(s) below that index are never compared' % stop)
+    elif isinstance(it, ast.Call) and norm(it.func) == 'reversed' or (isinstance(it, ast.Call) and norm(it.func) == 'range' and len(it.args) == 1):
+        pass
+    if verdict is None:
+        rep.error('Float._abs_gt: comparison loop over `%s` is not a form this rule understands' % t)
+        return
+    rep.ob('abs-gt.every-byte-msb-first', '_abs_gt walks every byte of the buffer from the most significant down', verdict[0], verdict[1] if not verdict[0] else '', ctx.where(loops[0]))
+    body = loops[0].body
+    ok = len(body) == 1 and isinstance(body[0], ast.If) and len(body[0].orelse) == 1 and isinstance(body[0].orelse[0], ast.If)
+    if ok:
+        c1, c2 = body[0].test, body[0].orelse[0].test
+        r1, r2 = body[0].body[0], body[0].orelse[0].body[0]
+        ok = (isinstance(c1, ast.Compare) and isinstance(c2, ast.Compare) and isinstance(c1.ops[0], ast.Gt) and isinstance(c2.ops[0], ast.Lt)
+              and norm(c1.left) == norm(c2.left) and norm(c1.comparators[0]) == norm(c2.comparators[0])
+              and isinstance(r1, ast.Return) and isinstance(r2, ast.Return) and norm(r1.value) == 'True' and norm(r2.value) == 'False')
+    rep.ob('abs-gt.first-difference-decides', 'the first differing byte decides: greater -> True, smaller -> False', ok, '', ctx.where(loops[0]))
+
+
 def check(ctx, rep):
     # 1. derived semantics of the six callbacks
     for name, want in sorted(WANT.items()):
@@ -121,27 +159,33 @@ def check(ctx, rep):
     for r in rets:
         t = norm(r.value)
         facts = dict(((f.text, f.pol) for f in fl.facts(r)))
-        if t == 'bool(rhsneg) and (not rhs.is_zero())':
-            classified += 1
-            rep.ob('float-gt.zero', 'zero > rhs iff rhs negative and non-zero', facts.get('self.is_zero()') is True, t, ctx.where(r))
-        elif t in ('not isneg', 'not (isneg)'):
-            classified += 1
+        if any(k.startswith('isinstance(') and v for k, v in facts.items()):
+            continue  # type upgrade branches: rule 5
+        classified += 1
+        if facts.get('self.is_zero()') is True:
+            # zero > rhs  iff  rhs is negative and not itself a (negative) zero
+            conj = r.value.values if isinstance(r.value, ast.BoolOp) and isinstance(r.value.op, ast.And) else [r.value]
+            texts = [norm(c) for c in conj]
+            neg = any(x in ('bool(rhsneg)', 'rhsneg', 'rhs.is_negative()', 'bool(rhs.is_negative())') for x in texts)
+            nz = any(x in ('not rhs.is_zero()', 'not (rhs.is_zero())') for x in texts)
+            rep.ob('float-gt.zero', 'zero > rhs iff rhs negative and non-zero', neg and nz and len(conj) == 2,
+                   'returns %s: a zero would compare greater than a negative zero, contradicting eq' % t, ctx.where(r))
+        elif facts.get('isneg != rhsneg') is True:
             rep.ob('float-gt.signs-differ', 'signs differ -> positive is greater',
-                   facts.get('isneg != rhsneg') is True and facts.get('self.is_zero()') is False, t, ctx.where(r))
-        elif t == 'rhs._abs_gt(self)':
-            classified += 1
+                   t in ('not isneg', 'not (isneg)', 'rhsneg', 'bool(rhsneg)') and facts.get('self.is_zero()') is False, t, ctx.where(r))
+        elif facts.get('isneg') is True:
             rep.ob('float-gt.both-negative', 'both negative -> |rhs| > |self|',
-                   facts.get('isneg') is True and facts.get('isneg != rhsneg') is False, t, ctx.where(r))
-        elif t == 'self._abs_gt(rhs)':
-            classified += 1
+                   t == 'rhs._abs_gt(self)' and facts.get('isneg != rhsneg') is False, t, ctx.where(r))
+        else:
             rep.ob('float-gt.both-positive', 'both positive -> |self| > |rhs|',
-                   facts.get('isneg') is False and facts.get('isneg != rhsneg') is False and facts.get('self.is_zero()') is False,
+                   t == 'self._abs_gt(rhs)' and facts.get('isneg') is False and facts.get('isneg != rhsneg') is False and facts.get('self.is_zero()') is False,
                    t, ctx.where(r))
     rep.floor('float-gt.cases', classified, 4, 'return cases')
     # isneg/rhsneg definitions
     assigns = dict((norm(n.targets[0]), norm(n.value)) for n in own_nodes(fgt) if isinstance(n, ast.Assign))
     rep.ob('float-gt.sign-definitions', 'isneg/rhsneg read the sign bits',
            assigns.get('isneg') == 'self.is_negative()' and assigns.get('rhsneg') == 'rhs.is_negative()', repr(assigns), ctx.where(fgt))
+    _abs_gt_domain(ctx, rep)
     # 5. upgrades
     n = 0
     for cls in ('Integer', 'Float'):
@@ -191,6 +235,9 @@ def variants(ctx):
         Va('float-eq-bytes-first', 'break', N,
            in_fn('Float.eq', lambda fn: mu.remove_stmt(fn, mu.stmt_has('self.is_zero()', ast.If))),
            expect='float-eq'),
+        Va('abs-gt-skips-lowest-byte', 'break', N, in_fn('Float._abs_gt', _range_loop), expect='abs-gt.every-byte'),
+        Va('float-gt-zero-ignores-negative-zero', 'break', N,
+           in_fn('Float.gt', lambda fn: mu.replace_expr(fn, mu.text_is('bool(rhsneg) and (not rhs.is_zero())'), 'bool(rhsneg)')), expect='float-gt.zero'),
         Va('float-gt-negative-wrong-direction', 'break', N,
            in_fn('Float.gt', lambda fn: mu.replace_expr(fn, mu.text_is('rhs._abs_gt(self)'), 'self._abs_gt(rhs)')),
            expect='float-gt'),
@@ -220,4 +267,11 @@ def _swap_first_two_branches(fn):
     second = top.orelse[0]
     top.test, second.test = second.test, top.test
     top.body, second.body = second.body, top.body
+    return True
+
+
+def _range_loop(fn):
+    lp = [n for n in ast.walk(fn) if isinstance(n, ast.For)][0]
+    new = ast.parse("for l, r in reversed(list(zip(bytearray(self._buffer)[1:], bytearray(rhscopy)[1:]))):\n    pass").body[0]
+    lp.iter = new.iter
     return True
